@@ -187,22 +187,9 @@ pub fn check_c03_suffix(out: &Outcome) -> Result<(), String> {
         j -= 1;
     }
     let pos = out.decision_pos(j).unwrap();
-    let mut prev_loc: Option<Loc> = out.events[pos].loc().cloned();
     for (i, e) in out.events.iter().enumerate().skip(pos + 1) {
         match e {
-            Event::Exit { .. } => {}
-            Event::HandOver { loc, .. } => {
-                if let Some(p) = &prev_loc {
-                    if !(p.len() >= loc.len() && p[..loc.len()] == loc[..]) {
-                        return Err(format!(
-                            "after every answer became stop (from decision {j}), hand-over #{i} at {} is not at an ancestor-or-self of the previous position {}",
-                            loc_str(loc),
-                            loc_str(p)
-                        ));
-                    }
-                }
-                prev_loc = Some(loc.clone());
-            }
+            Event::Exit { .. } | Event::HandOver { .. } => {}
             _ => {
                 return Err(format!(
                     "after every answer became stop (from decision {j}, event #{pos}) new work was done: event #{i} {e:?}"
